@@ -165,13 +165,16 @@ def check(run, replay=None):
                     if why:
                         run.violation("deepcopy_run_differs", "results of a deepcopy differ: " + why, input=desc)
             # EPANET run leaves the definition unchanged (only models without WNTR-only features)
-            if not spec["leaks"] and k % 2 == 0:
+            if not spec["leaks"] and (k % 2 == 0 or spec["options"]["demand_model"] == "PDD"):
                 wn_e = build(spec, wntr)
                 de0 = json.dumps(wn_e.to_dict(), sort_keys=True, default=str)
                 try:
                     with warnings.catch_warnings():
                         warnings.simplefilter("ignore")
-                        wntr.sim.EpanetSimulator(wn_e).run_sim(file_prefix=os.path.join(tmp, "e%d" % k))
+                        pdd_ = wn_e.options.hydraulic.demand_model in ("PDD", "PDA")
+                        for ver_ in ([2.0, 2.2] if pdd_ else [rng.choice([2.2, 2.0])]):      # a PDD model written in the 2.0 format loses only the 2.2 options OF THE FILE
+                            wntr.sim.EpanetSimulator(wn_e).run_sim(file_prefix=os.path.join(tmp, "e%d" % k), version=ver_)
+                            run.count("epanet version %s%s" % (ver_, " (PDD model)" if pdd_ else ""))
                     run.count("epanet runs")
                     if json.dumps(wn_e.to_dict(), sort_keys=True, default=str) != de0:
                         run.violation("definition_changed_by_epanet_simulator", "to_dict differs after an EpanetSimulator run", input=desc)
